@@ -173,7 +173,7 @@ def run(res):
                        'foreign ids); importer chains: full read, variable-first read, set filters, error chains.  Floats include -0.0, inf, '
                        'denormals, NaN.  non-trivial = distinct scenarios with at least one exported geometry and at least one importer chain '
                        'whose frame was compared with the expected frame')
-    common.standard_proof_stage(res, 'C20')
+    common.standard_proof_stage(res, 'C20', extra_targets=['theories/Vmap/Run.vo'])
     workdir = tempfile.mkdtemp(prefix='c20-', dir=common.BUILD)
     try:
         _run(res, quick, workdir)
